@@ -412,11 +412,6 @@ func (c *ComputedStyle) cascadeValue(key pr.PropKey) (value pr.DeclaredValue, sa
 		}
 	}
 
-	if value == pr.Inherit && c.isRootElement() {
-		// On the root element, "inherit" from initial values
-		value = pr.Initial
-	}
-
 	parent_style := c.parentStyle
 	if rawTokens, isPending := value.(pr.RawTokens); isPending { // Property with pending values, validate them.
 		var solvedTokens []Token
@@ -441,7 +436,7 @@ func (c *ComputedStyle) cascadeValue(key pr.PropKey) (value pr.DeclaredValue, sa
 			logger.WarningLogger.Printf("Ignored `%s: %s`, %s",
 				key, pa.Serialize(solvedTokens), err)
 
-			if pr.Inherited.Has(key.KnownProp) {
+			if pr.Inherited.Has(key.KnownProp) && parent_style != nil {
 				// Values in parent_style are already computed.
 				save = true
 				value = parent_style.Get(key)
@@ -453,6 +448,12 @@ func (c *ComputedStyle) cascadeValue(key pr.PropKey) (value pr.DeclaredValue, sa
 				}
 			}
 		}
+	}
+
+	if value == pr.Inherit && c.isRootElement() {
+		// On the root element, "inherit" from initial values
+		// (also when "inherit" comes from a substituted variable)
+		value = pr.Initial
 	}
 
 	if value == pr.Initial {
